@@ -97,7 +97,9 @@ class Formatter(FormatterInterface):
         if arr.values is None:
             return f"{symbol} = np.empty({arr.sizes}, dtype={typename})\n"
         elif arr.values.size == 1:
-            return f"{symbol} = np.full({arr.sizes}, {arr.values[0]}, dtype={typename})\n"
+            # values.flat[0] is a scalar: values[0] of a multi-dimensional array
+            # is an array, whose str() keeps only 8 significant digits
+            return f"{symbol} = np.full({arr.sizes}, {arr.values.flat[0]}, dtype={typename})\n"
         av = build_initializer_lists(arr.values)
         av = f"np.array({av}, dtype={typename})"
         return f"{symbol} = {av}\n"
